@@ -337,3 +337,10 @@ pub fn generate(seed: u64, cases: usize, exhaustive: bool, out: &mut dyn FnMut(S
         out(run_record(&format!("r{i}"), kind, &ops));
     }
 }
+
+pub fn replay(line: &str) -> String {
+    use crate::util::field;
+    let ops_s = field(line, "ops").unwrap();
+    let ops: Vec<Op> = if ops_s == "-" { vec![] } else { ops_s.split(',').map(Op::parse).collect() };
+    run_record(field(line, "id").unwrap(), field(line, "kind").unwrap(), &ops)
+}
